@@ -67,6 +67,12 @@ def gen_rounds(seed, tier, run):
         out.append(f"flat@{ty} l")
         out.append(f"single@{ty} z7")
         out.append(f"empty@{ty}")
+    # arrays collected from filtering iterators (FromIterator): size hints that are upper bounds only
+    for ty in ("i32", "str", "f64", "u8", "list", "pair"):
+        for n in (0, 1, 2, 5, 8, 13):
+            for m in (1, 2, 3, 7):
+                for kind in (0, 1, 2, 3):
+                    out.append(f"collect_filter@{ty} {lst([rng.randint(1, 40) for _ in range(n)])} z{m} z{kind}")
     run(out)
     # histories
     nh = 1500 if tier == "quick" else 30000
